@@ -259,6 +259,22 @@ fn replace_call_expr_if_csi_method_with_member(
         //  a) a.substring() -> __datadog_token_$i = a, __datadog_token_$i2 = __datadog_token_$i.substring, __datadog_token_$i2.call(__datadog_token_$i, __datadog_token_$i2)
         //  b) String.prototype.substring.[call|apply](a) -> __datadog_token_$i = a, __datadog_token_$i2 = String.prototype.substring, __datadog_token_$i2.call(__datadog_token_$i, __datadog_token_$i2)
 
+        // a static $class_name.prototype.$method_name path can be read after the this argument; any other
+        // function expression (foo().concat.call(bar())) is evaluated before it, as in the original call
+        let function_first = member_expr_opt.filter(|member_expr| {
+            !FunctionPrototypeTransform::is_static_prototype_path(member_expr)
+        });
+        let ident_function = function_first.map(|member_expr| {
+            // __datadog_token_$i = member
+            ident_provider.get_ident_used_in_assignation(
+                &Expr::Member(member_expr.clone()),
+                &mut assignations,
+                &mut arguments,
+                &span,
+                IdentKind::Expr,
+            )
+        });
+
         // __datadog_token_$i = a
         let ident_replacement_option = ident_provider.get_temporal_ident_used_in_assignation(
             expr,
@@ -269,8 +285,9 @@ fn replace_call_expr_if_csi_method_with_member(
 
         let ident_replacement = ident_replacement_option.map_or_else(|| expr.clone(), Expr::Ident);
 
-        let ident_callee = match member_expr_opt {
-            Some(member_expr) => {
+        let ident_callee = match (ident_function, member_expr_opt) {
+            (Some(ident_function), _) => ident_function,
+            (None, Some(member_expr)) => {
                 // __datadog_token_$i2 = member
                 ident_provider.get_ident_used_in_assignation(
                     &Expr::Member(member_expr.clone()),
@@ -280,7 +297,7 @@ fn replace_call_expr_if_csi_method_with_member(
                     IdentKind::Expr,
                 )
             }
-            None => {
+            (None, None) => {
                 // __datadog_token_$i.substring
                 let member_expr = MemberExpr {
                     span,
